@@ -69,7 +69,9 @@ func (root *Root) ResolveExecutable(
 
 	op := exe.Ops[opName]
 	if op == nil {
-		if len(exe.Ops) == 1 {
+		// Only a request that does not name an operation gets the one and
+		// only operation, a name that is not in the document is an error.
+		if opName == "" && len(exe.Ops) == 1 {
 			for _, o := range exe.Ops {
 				op = o
 				break
